@@ -102,12 +102,48 @@ func c15RoundTrip(in *hub.Instance) ([]c15Diff, *hub.Instance, *hub.Snapshot, er
 	var diffs []c15Diff
 	cmp := func(store string, names map[byte]string) {
 		type agg struct{ lost, extra, changed int }
-		per := map[byte]*agg{}
-		get := func(p byte) *agg {
-			if per[p] == nil {
-				per[p] = &agg{}
+		per := map[string]*agg{}
+		nameOf := func(k []byte) string {
+			name := names[k[0]]
+			if name == "" {
+				name = fmt.Sprintf("0x%02x", k[0])
 			}
-			return per[p]
+			return name
+		}
+		get := func(name string) *agg {
+			if per[name] == nil {
+				per[name] = &agg{}
+			}
+			return per[name]
+		}
+		// delegate-key indexes: entries not reachable from a validator's CURRENT binding are leftovers of a
+		// superseded registration (SetDelegateKeys never deletes them); they are classified separately
+		stale := map[string]bool{}
+		if store == mhubtypes.StoreKey {
+			kv := map[string][]byte{}
+			for _, e := range orig.Stores[store] {
+				kv[string(e.K)] = e.V
+			}
+			live := map[string]bool{}
+			for _, e := range orig.Stores[store] {
+				if e.K[0] != mhubtypes.ValidatorExternalAddressKey {
+					continue
+				}
+				for _, ch := range []string{"ethereum", "minter", "bsc", "hub"} {
+					if len(e.K) > 1+len(ch) && string(e.K[1:1+len(ch)]) == ch && len(e.K) == 1+len(ch)+20 {
+						extKey := string(append(append([]byte{mhubtypes.ExternalOrchestratorAddressKey}, []byte(ch)...), e.V...))
+						live[extKey] = true
+						if orch, ok := kv[extKey]; ok {
+							live[string(append(append([]byte{mhubtypes.OrchestratorValidatorAddressKey}, []byte(ch)...), orch...))] = true
+						}
+					}
+				}
+			}
+			for k := range kv {
+				if (k[0] == mhubtypes.ExternalOrchestratorAddressKey || k[0] == mhubtypes.OrchestratorValidatorAddressKey) && !live[k] {
+					stale[k] = true
+				}
+			}
 		}
 		// absent and zero are the same value for the plain counters (their getters return 0 for a
 		// missing key) and for an external-height record whose external height is 0
@@ -141,44 +177,27 @@ func c15RoundTrip(in *hub.Instance) ([]c15Diff, *hub.Instance, *hub.Snapshot, er
 			v, ok := a[string(kv.K)]
 			switch {
 			case !ok:
-				get(kv.K[0]).extra++
+				get(nameOf(kv.K)).extra++
 			case !bytes.Equal(v, kv.V):
-				get(kv.K[0]).changed++
+				get(nameOf(kv.K)).changed++
 			}
 			delete(a, string(kv.K))
 		}
 		for k := range a {
-			get(k[0]).lost++
+			if stale[k] {
+				get(nameOf([]byte(k)) + "(stale entry of a superseded registration)").lost++
+			} else {
+				get(nameOf([]byte(k))).lost++
+			}
 		}
-		var ps []int
+		var ps []string
 		for p := range per {
-			ps = append(ps, int(p))
+			ps = append(ps, p)
 		}
-		sort.Ints(ps)
-		for _, p := range ps {
-			x := per[byte(p)]
-			name := names[byte(p)]
-			if name == "" {
-				name = fmt.Sprintf("0x%02x", p)
-			}
-			kinds := ""
-			if x.lost > 0 {
-				kinds += "lost"
-			}
-			if x.changed > 0 {
-				if kinds != "" {
-					kinds += "+"
-				}
-				kinds += "changed"
-			}
-			if x.extra > 0 {
-				if kinds != "" {
-					kinds += "+"
-				}
-				kinds += "extra"
-			}
+		sort.Strings(ps)
+		for _, name := range ps {
+			x := per[name]
 			diffs = append(diffs, c15Diff{Site: store + "/" + name, Detail: fmt.Sprintf("%s: %d lost, %d changed, %d extra keys after export->init", name, x.lost, x.changed, x.extra)})
-			_ = kinds
 		}
 	}
 	cmp(mhubtypes.StoreKey, mhubPrefixNames)
